@@ -13,7 +13,17 @@ NoFaults == {}
 SomeFaults == {"connect", "handshake", "close"}
 DialFaults == {"connect", "handshake"}
 NoT == {}
+TimerFirst == {"TimerFirst"}
+LazyTimer == {"LazyTimer"}
+KeepInner == {"KeepInner"}
+ZeroNoTimeout == {"ZeroNoTimeout"}
+NoArm == {"NoArm"}
+D2 == {"D2"}
+D4 == {"D4"}
 Durs013 == {0, 1, 3}
+Durs01 == {0, 1}
+Durs1 == {1}
+Durs13 == {1, 3}
 
 InitH == TInit /\ hist = <<>>
 NextH == /\ TNext
